@@ -18,7 +18,7 @@ type Policy interface {
 
 // PolicySpec is the serialisable description of a seeded policy.
 type PolicySpec struct {
-	Kind string `json:"kind"` // fifo | random | pct | starve | bounded
+	Kind string `json:"kind"` // fifo | random | pct | starve | bounded | holdat
 	Seed int64  `json:"seed"`
 	// L is the length of the adversarial prefix in decisions; afterwards the run is fair (FIFO, time
 	// passes only when nothing can run, environment actions fire when nothing else can run).
@@ -35,8 +35,14 @@ type PolicySpec struct {
 	Victim   string `json:"victim,omitempty"`    // substring of role@site
 	WindowUS int64  `json:"window_us,omitempty"` // simulated microseconds
 	Each     bool   `json:"each,omitempty"`      // a new window for every new arrival of a victim
+	Shuffle  bool   `json:"shuffle,omitempty"`   // starve: the goroutines that are not held run in drawn, not FIFO, order
 	// bounded
 	Preemptions int `json:"preemptions,omitempty"`
+	// holdat: at each listed decision number one of the goroutines that could run next is drawn and
+	// held back - for WindowUS of simulated time, or with a zero window until nothing else can run.
+	// The others run in FIFO or (Shuffle) drawn order. A single-delay sweep over the points a run
+	// actually passes, where starve needs to guess a site by name.
+	HoldAt []int64 `json:"hold_at,omitempty"`
 }
 
 var timeSteps = []time.Duration{100 * time.Microsecond, time.Millisecond, 5 * time.Millisecond, 20 * time.Millisecond, 100 * time.Millisecond, time.Second, 10 * time.Second}
@@ -65,11 +71,15 @@ func NewPolicy(sp PolicySpec) Policy {
 		}
 	case "starve":
 		b.windows = map[string]time.Duration{}
+	case "holdat":
+		b.held = map[string]time.Duration{}
 	}
 	return b
 }
 
 type basePolicy struct {
+	held    map[string]time.Duration // holdat: goroutine name -> start of its hold
+	holdIdx int
 	sp      PolicySpec
 	rng     *rand.Rand
 	prio    map[string]uint64
@@ -157,6 +167,44 @@ func (b *basePolicy) Decide(st *State) (int, time.Duration) {
 			return st.Cur, 0
 		}
 		return fairPick(st), 0
+	case "holdat":
+		for b.holdIdx < len(b.sp.HoldAt) && st.Seq >= b.sp.HoldAt[b.holdIdx] {
+			b.held[st.Enabled[cand[b.rng.Intn(len(cand))]].g.Name] = st.Now
+			b.holdIdx++
+		}
+		w := time.Duration(b.sp.WindowUS) * time.Microsecond
+		var free, kept []int
+		var wait time.Duration
+		for _, i := range cand {
+			name := st.Enabled[i].g.Name
+			start, isHeld := b.held[name]
+			switch {
+			case !isHeld:
+				free = append(free, i)
+			case w == 0:
+				kept = append(kept, i)
+			default:
+				if rem := start + w - st.Now; rem > 0 {
+					if wait == 0 || rem < wait {
+						wait = rem
+					}
+				} else {
+					delete(b.held, name)
+					free = append(free, i)
+				}
+			}
+		}
+		if len(free) > 0 {
+			if b.sp.Shuffle {
+				return free[b.rng.Intn(len(free))], 0
+			}
+			return free[0], 0
+		}
+		if len(kept) > 0 {
+			delete(b.held, st.Enabled[kept[0]].g.Name)
+			return kept[0], 0
+		}
+		return -1, wait
 	case "starve":
 		w := time.Duration(b.sp.WindowUS) * time.Microsecond
 		var free []int
@@ -186,7 +234,10 @@ func (b *basePolicy) Decide(st *State) (int, time.Duration) {
 			free = append(free, i)
 		}
 		if len(free) > 0 {
-			// run the others in FIFO order
+			// run the others in FIFO order, or in drawn order
+			if b.sp.Shuffle {
+				return free[b.rng.Intn(len(free))], 0
+			}
 			return free[0], 0
 		}
 		return -1, wait
